@@ -9,7 +9,7 @@ in the production configuration (a rest config and a health-check function are p
 
 * an `*EndpointInfo` object is an `EP`; its pointer identity is `(name, gen)` where `gen` is the number of
   the `Sync` that created it (a re-added endpoint is a new object);
-* `Endpoints` (a `sync.Map`) is an association list looked up by name (`get`), never by position;
+* `Endpoints` (a `sync.Map`) is an association list looked up by name (`load`), never by position;
 * the two health-check goroutines of an endpoint are `probing` (worker alive, `cancelHealthCheck != nil`),
   `chan` (a token waits in the 1-buffered `healthCheckCh`) and `blocked` (ticker goroutines blocked on their
   first, unconditional send because the channel was full when they started).  One iteration of the worker
@@ -51,7 +51,7 @@ def EP.id (e : EP) : Name × Nat := (e.name, e.gen)
 abbrev Key := List (Name × Nat)
 
 /-- `EndpointInfoMap.Load` -/
-def get (eps : List EP) (n : Name) : Option EP := eps.find? (fun e => e.name == n)
+def load (eps : List EP) (n : Name) : Option EP := eps.find? (fun e => e.name == n)
 
 /-- apply `f` to the object stored under `n` (methods called on the pointer returned by `Load`) -/
 def updateAt (eps : List EP) (n : Name) (f : EP → EP) : List EP :=
@@ -91,7 +91,7 @@ def newEP (n : Name) (gen : Nat) (disabled : Bool) : EP :=
 
 /-- `ClusterInfo.addOrUpdateEndpoint` -/
 def addOrUpdateEndpoint (gen : Nat) (eps : List EP) (n : Name) (disabled : Bool) : List EP :=
-  match get eps n with
+  match load eps n with
   | some _ => updateAt eps n fun e => (e.setDisabled disabled).ensureHC
   | none => eps ++ [(newEP n gen disabled).ensureHC]
 
@@ -145,7 +145,7 @@ def lbSet : List (Key × Nat) → Key → Nat → List (Key × Nat)
 /-- the loop of `Pop`: upstreams present in `Endpoints` and ready, in the order of `upstreams` -/
 def readyList (eps : List EP) (us : List Name) : List EP :=
   us.filterMap fun n =>
-    match get eps n with
+    match load eps n with
     | some e => if e.isReady then some e else none
     | none => none
 
@@ -206,7 +206,7 @@ def step (s : State) : Op → State × Out
   | .trigger n => ({ s with eps := updateAt s.eps n EP.trigger }, .none)
   | .ensure n => ({ s with eps := updateAt s.eps n EP.ensureHC }, .none)
   | .probeFire n h =>
-    match get s.eps n with
+    match load s.eps n with
     | some e => if e.canFire then ({ s with eps := updateAt s.eps n fun e => e.fire h }, .fired e.name e.gen) else (s, .notFired)
     | none => (s, .notFired)
   | .matchAttrs policy order => matchAttrs s policy order
